@@ -44,7 +44,7 @@ ASSUMPTIONS = [
 ]
 REQUIRED = ["constructions", "points_multiset_checked", "mst_length_checked", "limit_checked",
             "limit_root_not_exempt", "root_wants_more_than_k", "parents_replayed", "balanced_replayed",
-            "float32_clouds", "far_clouds", "soma_given", "soma_first_point", "class_PointsToMST",
+            "float32_clouds", "integer_clouds", "clouds_with_coincident_points", "far_clouds", "soma_given", "soma_first_point", "class_PointsToMST",
             "class_PointsToCuntzMST", "tap_call"]
 FLOOR = {"quick": 800, "thorough": 16000}
 SHARDS = {"quick": 8, "thorough": 16}
@@ -80,7 +80,38 @@ def cloud(case):
         p = p.astype(np.float32)
         if soma is not None and case.get("soma32", True):
             soma = soma.astype(np.float32)
+    elif case["dtype"].startswith("int"):  # voxel coordinates
+        p = np.round(p * 2).astype(case["dtype"])
+        _, first = np.unique(p, axis=0, return_index=True)
+        p = p[np.sort(first)]
+        if soma is not None:
+            soma = np.round(soma * 2).astype(case["dtype"]) + np.array([0, 0, 1], case["dtype"])
+    if case.get("dups"):
+        # coincident samples (and a soma that is also in the cloud): still one node per point
+        rng2 = np.random.default_rng(case["seed"] + 9)
+        k = int(rng2.integers(1, 4))
+        idx = rng2.integers(0, len(p), k)
+        p = np.concatenate([p, p[idx]])
+        if soma is not None and rng2.random() < 0.5:
+            soma = p[int(rng2.integers(0, len(p)))].copy()
     return p, soma
+
+
+def prim_weight(D):
+    """Weight of a minimum spanning tree of the complete graph with distance matrix D (own Prim:
+    scipy's dense csgraph reads a zero entry as 'no edge', which hides coincident points)."""
+    n = len(D)
+    best = D[0].copy()
+    inside = np.zeros(n, dtype=bool)
+    inside[0] = True
+    total = 0.0
+    for _ in range(n - 1):
+        cand = np.where(inside, np.inf, best)
+        j = int(np.argmin(cand))
+        total += float(cand[j])
+        inside[j] = True
+        best = np.minimum(best, D[j])
+    return total
 
 
 def replay_rule(points, bf, k, exclude_soma, tie):
@@ -131,9 +162,14 @@ def execute(ctx, case):
     bf, k, ex, srt = case["bf"], case["k"], case["exclude_soma"], case["sort"]
     cls = case["cls"]
     allp = np.concatenate([[soma], pts]) if soma is not None else pts
-    if len({_key(p) for p in allp}) != len(allp):
+    has_dups = len({_key(p) for p in allp}) != len(allp)
+    if has_dups and not case.get("dups"):
         ctx.skip("cloud has duplicate points in float32")
         return
+    if has_dups:
+        ctx.count("clouds_with_coincident_points")
+    if case["dtype"].startswith("int"):
+        ctx.count("integer_clouds")
     ctx.count("class_" + cls)
     ctx.count("soma_given" if soma is not None else "soma_first_point")
     if case["dtype"] == "float32":
@@ -180,20 +216,27 @@ def execute(ctx, case):
                                            f"{'soma' if soma is not None else 'first point'} "
                                            f"{np.asarray(allp[0]).tolist()}", case)
     got = {_key(xyz[i]): (_key(xyz[p]) if p >= 0 else None) for i, p in enumerate(pid)}
-    nchild = Counter(v for v in got.values() if v is not None)
+    nchild = Counter(int(p) for p in pid if p >= 0)
+    nchild = Counter({_key(xyz[i]) if not has_dups else ("node", i, _key(xyz[i])): c
+                      for i, c in nchild.items()})
     P64 = np.asarray(allp, dtype=np.float64)
     if k != -1:
         ctx.count("limit_checked")
         if not ex:
             ctx.count("limit_root_not_exempt")
         for kk, c in nchild.items():
-            if c > k and not (ex and kk == _key(allp[0])):
+            is_root = (kk == _key(allp[0])) if not has_dups else (kk[1] == 0)
+            if c > k and not (ex and is_root):
                 return ctx.violation(
                     "limit-exceeded",
-                    f"a node ({'the root' if kk == _key(allp[0]) else 'not the root'}) has {c} "
+                    f"a node ({'the root' if is_root else 'not the root'}) has {c} "
                     f"children with furcations={k}, exclude_soma={ex}", case)
     if bf == 0 and k == -1:
-        want = float(minimum_spanning_tree(cdist(P64, P64)).sum())
+        want = prim_weight(cdist(P64, P64))
+        if not has_dups:  # cross-check of the oracle itself where scipy's reading is sound
+            alt = float(minimum_spanning_tree(cdist(P64, P64)).sum())
+            if abs(alt - want) > 1e-9 * (1 + want):
+                raise AssertionError("harness: Prim and scipy MST weights differ")
         gotlen = float(sum(np.linalg.norm(P64_of(xyz, i) - P64_of(xyz, p))
                            for i, p in enumerate(pid) if p >= 0))
         ctx.count("mst_length_checked")
@@ -205,6 +248,9 @@ def execute(ctx, case):
     tie = 1e-5 if case["dtype"] == "float32" else 1e-9
     if case["dtype"] == "float32" and case["far"]:
         tie = 1e-3  # float32 differences of coordinates ~1e4 carry ~1e-3 absolute error
+    if has_dups:
+        ctx.skip("coincident points: exact ties, parent comparison not decided")
+        return
     par, near = replay_rule(P64, bf, k, ex, tie)
     if par is None:
         ctx.skip("replay: every connected point saturated")
@@ -248,7 +294,8 @@ def run(ctx):
             case = {"seed": int(rng.integers(0, 2**31 - 1)), "n": n,
                     "layout": str(rng.choice(["gauss", "uniform", "clustered", "arms"])),
                     "far": bool(rng.random() < 0.2),
-                    "dtype": str(rng.choice(["float64", "float64", "float32"])),
+                    "dtype": str(rng.choice(["float64", "float64", "float32", "int64", "int32"])),
+                    "dups": bool(rng.random() < 0.12),
                     "soma": bool(rng.random() < 0.5),
                     "cls": str(rng.choice(["PointsToMST", "PointsToCuntzMST", "PointsToCuntzMST"])),
                     "bf": float(rng.choice([0, .1, .4, .7, 1.0])),
